@@ -117,6 +117,7 @@ func loadWorld(dir string, overlay map[string][]byte) (*World, error) {
 	}
 	w.applyRenames()
 	w.instantiateGenericContracts()
+	w.linkIfaceRefinement()
 	return w, nil
 }
 
